@@ -281,11 +281,13 @@ class Check(PropertyCheck):
                 "       |               ^            \n"
                 "       v               |            \n"
                 "   \"label\"     -------+----->      \n\n")
+        # the larger bodies are real drawings whose conversion takes a good part of a second: an abandoned request is
+        # only dropped by the server while its conversion is still running
         bodies = {
             "small": (unit % 1).encode(),
             "medium": "".join(unit % i for i in range(20)).encode(),
-            "large": ("".join(unit % i for i in range(16)) + (" " * 99 + "\n") * r.range(135, 150)).encode(),
-            "huge": ("".join(unit % i for i in range(24)) + (" " * 99 + "\n") * r.range(600, 1400)).encode(),
+            "large": ("".join(unit % i for i in range(r.range(85, 95))) + (" " * 99 + "\n") * r.range(5, 50)).encode(),
+            "huge": ("".join(unit % i for i in range(r.range(140, 160)))).encode(),
         }
         want = self.expected([("POST", "/", b, "utf8") for b in bodies.values()])
         want = {k: want.get(i) for i, k in enumerate(bodies)}
@@ -307,26 +309,27 @@ class Check(PropertyCheck):
 
         if not verify("before any abandoned request"):
             return fails
-        rounds = self.scale(40, 120)
+        rounds = self.scale(48, 144)
         for k, b in bodies.items():
             head = ("POST / HTTP/1.1\r\nHost: localhost\r\nContent-Length: %d\r\n\r\n" % len(b)).encode()
             for j in range(rounds):
                 self.evaluations += 1
                 try:
                     s = socket.create_connection(("127.0.0.1", self.port), timeout=5)
-                    v = j % 4
-                    if v == 3:
+                    v = j % 8
+                    if v == 7:
                         s.sendall(head + b[: len(b) // 2])      # half a body, then gone
                     else:
                         s.sendall(head + b)                      # a complete request, the answer is never read
-                        if v == 1:
-                            time.sleep(0.02)
-                        elif v == 2:
+                        if v == 6:
                             try:
                                 s.shutdown(socket.SHUT_WR)         # half-close, then gone
                             except OSError:
                                 pass
                             time.sleep(0.01)
+                        elif v >= 1:
+                            # gone while the conversion is running (the server has read the request by then)
+                            time.sleep([0.02, 0.02, 0.05, 0.05, 0.15][v - 1])
                     s.close()
                 except OSError:
                     pass
